@@ -330,6 +330,7 @@ func runC11(e *Engine, r *Report) {
 	// section) that applied the entry, on every exit (decided by C02's rule set)
 	borrow(e, r, "C02", "MPT-setapplied")
 	ruleSnapshotJobExclusion(e, r)
+	ruleLastAppliedContiguous(e, r)
 }
 
 func lastN(ss []string, n int) string {
